@@ -20,7 +20,7 @@ RULE = ('(i) arbitrary byte strings (Hypothesis binary, boundary-biased) written
         'a stream, continuation without a start, continuation of a different type, request on a live id, unknown error '
         'code, ignore-flag frames of unknown type, METADATA_PUSH on a stream, wrong id parity) interleaved with healthy '
         'interactions and followed by a probe request-response on a fresh id; (iii) the complete matrix of application '
-        'faults: every RequestHandler entry point raising, returned future failing, publisher raising in subscribe / '
+        'faults: every RequestHandler entry point raising, returned future failing, a generator factory failing before there is a generator, publisher raising in subscribe / '
         'request, generator / async generator / observable failing at element k, subscriber callbacks raising, on_setup '
         'raising - x requester side x framing x fragmentation - each beside a healthy bystander stream and followed by a '
         'probe. Oracle: processing terminates (a 60 s watchdog turns a synchronous endless loop into a reported '
@@ -296,6 +296,8 @@ FAULTS = [
     ('rr', 'handler_raises'), ('rr', 'future_fails'), ('rr', 'future_fails_late'), ('rr', 'future_cancelled'),
     ('rr', 'future_cancelled_late'),
     ('st', 'handler_raises'), ('st', 'pub_raises_subscribe'), ('st', 'pub_raises_request'),
+    ('st', 'gen_raises_factory'), ('st', 'agen_raises_factory'), ('ch', 'gen_raises_factory'),
+    ('ch', 'requester_gen_raises_factory'),
     ('st', 'gen_raises_0'), ('st', 'gen_raises_1'), ('st', 'gen_raises_end'), ('st', 'agen_raises_1'), ('st', 'rx4_raises_1'),
     ('st', 'rx3bp_raises_1'), ('st', 'subscriber_raises_1'), ('st', 'subscriber_raises_2'),
     ('ch', 'handler_raises'), ('ch', 'pub_raises_subscribe'), ('ch', 'pub_raises_request'), ('ch', 'gen_raises_1'),
@@ -341,9 +343,10 @@ def fault_program(k, fault, side, msg, frag, exc_style='str'):
         spec['rsrc']['raise_in'] = f.split('_')[-1]
     elif f.startswith(('gen_raises', 'agen_raises', 'rx4_raises', 'rx3bp_raises')):
         kind, _, at = f.split('_')
-        spec['src'] = {'kind': kind, 'els': els, 'end': 'sep', 'err_at': len(els) if at == 'end' else int(at)}
+        spec['src'] = {'kind': kind, 'els': els, 'end': 'sep', 'err_at': len(els) if at == 'end' else (at if at == 'factory' else int(at))}
     elif f.startswith('requester_gen_raises'):
-        spec['rsrc'] = {'kind': 'gen', 'els': els, 'end': 'sep', 'err_at': int(f.split('_')[-1])}
+        at = f.split('_')[-1]
+        spec['rsrc'] = {'kind': 'gen', 'els': els, 'end': 'sep', 'err_at': at if at == 'factory' else int(at)}
     elif f.startswith('subscriber_raises'):
         spec['sub']['raise_at'] = int(f.split('_')[-1])
     elif f.startswith('responder_subscriber_raises'):
